@@ -118,7 +118,22 @@ PartialFailing(ev) ==
     \cup Tagged("restamp", Failing(<< <<"restamp_returns_old", ev.restamp.err = 0 /\ ev.restamp.old = SubSeq(L.time, 1, 6)>>,
                     <<"restamp_bytes", ev.restamp.bytes = Restamp(ev.bytes, ev.restamp.new)>> >>))
 
-Check(ev) == IF ev.e = "partial" THEN PartialFailing(ev) ELSE {<<"event", ev.e>>}
+\* a file whose first cell holds one long record (a polygon of n vertices, up to the 8189 + closing point one XY record
+\* can hold) followed by a triangle, and a second cell with a label: every summary reader gets past
+\* the long record, and the summary counts are those of the full reader and of the description
+BigInfoFailing(ev) ==
+    Failing(<< <<"write_error", ev.werr = 0>>,
+               <<"full_reader", ev.full.err = 0 /\ ev.full.ncell = 2 /\ ev.full.npoly = 2 /\ ev.full.nlabel = 1
+                                /\ ev.full.maxv = ev.n>>,
+               <<"info_error", ev.info.err = 0>>,
+               <<"info_counts", ev.info.ncell = 2 /\ ev.info.npoly = 2 /\ ev.info.nlabel = 1>>,
+               <<"info_tags", TagSetJ(ev.info.stags) = {<<5, 1>>, <<9, 2>>} /\ TagSetJ(ev.info.ltags) = {<<11, 3>>}>>,
+               <<"units_timestamp", ev.units_err = 0 /\ ev.ts_err = 0 /\ ev.ts_year = 2000>>,
+               <<"rawcells", ev.raw_err = 0 /\ ev.nraw = 2>>,
+               <<"files_closed", ev.fd = 0>> >>)
+
+Check(ev) == IF ev.e = "partial" THEN PartialFailing(ev)
+             ELSE IF ev.e = "biginfo" THEN BigInfoFailing(ev) ELSE {<<"event", ev.e>>}
 TInit == l = 1
 TNext == /\ l <= Len(Log) /\ l' = l + 1
          /\ LET f == Check(Ev) IN IF f = {} THEN TRUE
